@@ -1568,3 +1568,117 @@ func (c *Ctx) outermostLoaders(pkgs map[string]bool) map[*ssa.Function]bool {
 	all := c.G.Loaders(pkgs)
 	return all
 }
+
+// ---------------------------------------------------------------------------
+// R13.7 nil results that signal "nothing" without an error must be tested before they are dereferenced
+// ---------------------------------------------------------------------------
+
+// mayReturnNilOK lists, for a repository function, the result indices of pointer/interface type for which some return
+// yields the nil constant while the error result (if any) is the nil constant too.
+func (c *Ctx) mayReturnNilOK(fn *ssa.Function) []int {
+	if len(fn.Blocks) == 0 {
+		return nil
+	}
+	errIdx := core.ErrResultIndex(fn.Signature)
+	var out []int
+	for i := 0; i < fn.Signature.Results().Len(); i++ {
+		if i == errIdx || !nilable(fn.Signature.Results().At(i).Type()) {
+			continue
+		}
+		if _, isSlice := fn.Signature.Results().At(i).Type().Underlying().(*types.Slice); isSlice {
+			continue
+		}
+		for _, ret := range core.Returns(fn) {
+			rr := core.ResolvedResults(ret)
+			if core.IsNilConst(rr[i]) && (errIdx < 0 || core.IsNilConst(rr[errIdx])) {
+				out = append(out, i)
+				break
+			}
+		}
+	}
+	return out
+}
+
+func (c *Ctx) checkNilResults() {
+	r := c.R
+	n := 0
+	for _, fn := range c.G.Funcs() {
+		if !c.inC13Scope(fn) {
+			continue
+		}
+		ord := 0
+		for _, ci := range core.CallsIn(fn) {
+			call, ok := ci.(*ssa.Call)
+			if !ok {
+				continue
+			}
+			// callees: static repository function, or every repository implementer of an invoke on a repository interface
+			var callees []*ssa.Function
+			if f := call.Call.StaticCallee(); f != nil {
+				if _, isRepo := c.P.PkgOf(f); isRepo {
+					callees = append(callees, f)
+				}
+			} else if call.Call.IsInvoke() {
+				for _, e := range c.G.Out[fn] {
+					if e.Site == ssa.Instruction(call) {
+						callees = append(callees, e.Callee)
+					}
+				}
+			}
+			idxs := map[int]string{}
+			for _, f := range callees {
+				if c.P.IsGenerated(f.Pos()) {
+					continue
+				}
+				for _, i := range c.mayReturnNilOK(f) {
+					idxs[i] = core.FuncName(f)
+				}
+			}
+			for i, from := range idxs {
+				var v ssa.Value
+				if call.Call.Signature().Results().Len() == 1 {
+					v = call
+				} else {
+					v = extractOf(call, i)
+				}
+				if v == nil {
+					continue
+				}
+				// dereferencing uses of v: receiver of a method call / invoke, field address, load
+				for _, ref := range *v.Referrers() {
+					deref := false
+					switch x := ref.(type) {
+					case *ssa.Call:
+						if x.Call.IsInvoke() && x.Call.Value == v {
+							deref = true
+						} else if f := x.Call.StaticCallee(); f != nil && f.Signature.Recv() != nil && len(x.Call.Args) > 0 && x.Call.Args[0] == v {
+							// method on a pointer receiver of a generated/typed node dereferences it
+							if _, isPtr := f.Signature.Recv().Type().Underlying().(*types.Pointer); isPtr || true {
+								deref = true
+							}
+						}
+					case *ssa.FieldAddr:
+						deref = x.X == v
+					case *ssa.UnOp:
+						deref = x.Op == token.MUL && x.X == v
+					}
+					if !deref {
+						continue
+					}
+					n++
+					ord++
+					key := fmt.Sprintf("%s/nil-result-deref#%d", core.FuncName(fn), ord)
+					guarded := core.GuardedBy(ref.Block(), func(cond ssa.Value) (bool, bool) {
+						x, trueMeansNil, ok := core.NilCmp(cond)
+						if !ok || x != v {
+							return false, false
+						}
+						return !trueMeansNil, true
+					})
+					r.Check(guarded, "R13.7", key, c.P.Pos(ref.Pos()), "result of "+from+" (nil without error means 'nothing') is tested before use", "result of "+from+" can be nil with a nil error (it signals 'nothing left' / 'not found') and is dereferenced without a nil test")
+				}
+			}
+		}
+	}
+	r.Floor("R13.7", n, 2)
+}
